@@ -115,13 +115,32 @@ type TermCtx struct {
 	varSet map[string]*Term  // by name
 	ufs    map[string]*uFunc // uninterpreted functions
 	ufOrd  []string
+	recs   map[string]*recDef // recursive definitions of some ufs (printed as define-fun-rec)
 	fresh  int
 	bmemo  map[*Term]ival
 	ranges map[*Term]ival
+	// memory regions: oldRegs are region ids known to lie below the allocation base at entry; allocVars are the
+	// allocation bases (entry and later), all at or above the entry base; base+k (k >= 0) is a region allocated later
+	oldRegs   map[*Term]bool
+	allocVars map[*Term]bool
+}
+
+// recDef: the defining equation of a recursive specification function, f(params) = body.
+type recDef struct {
+	Params []*Term // bound variables
+	Body   *Term
+}
+
+// DefineRec attaches a recursive definition to the uninterpreted function `name` (declared by a UF call).
+func (c *TermCtx) DefineRec(name string, params []*Term, body *Term) {
+	if c.recs == nil {
+		c.recs = map[string]*recDef{}
+	}
+	c.recs[sanitize(name)] = &recDef{Params: params, Body: body}
 }
 
 func NewTermCtx() *TermCtx {
-	return &TermCtx{tab: map[string]*Term{}, varSet: map[string]*Term{}, ufs: map[string]*uFunc{}}
+	return &TermCtx{oldRegs: map[*Term]bool{}, allocVars: map[*Term]bool{},tab: map[string]*Term{}, varSet: map[string]*Term{}, ufs: map[string]*uFunc{}}
 }
 
 func (c *TermCtx) mk(op string, sort *Sort, name string, iv *big.Int, args ...*Term) *Term {
@@ -930,6 +949,12 @@ func (c *TermCtx) definitelyDistinct(i, j *Term) bool {
 		if bi == bj && bi != nil {
 			return ki.Cmp(kj) != 0
 		}
+		if c.oldRegs[i] && bj != nil && c.allocVars[bj] && kj.Sign() >= 0 {
+			return true
+		}
+		if c.oldRegs[j] && bi != nil && c.allocVars[bi] && ki.Sign() >= 0 {
+			return true
+		}
 	}
 	return false
 }
@@ -1132,7 +1157,13 @@ func (s *Script) String(getModel bool, modelTerms []*Term) string {
 		case "bvar":
 			hb = true
 		case "uf":
-			usedUF[t.Name] = true
+			if !usedUF[t.Name] {
+				usedUF[t.Name] = true
+				if rd := c.recs[t.Name]; rd != nil {
+					refs[rd.Body] += 2 // never hoisted (contains the parameters), but its vars and ufs are declared
+					visit(rd.Body)
+				}
+			}
 		}
 		hasBound[t] = hb
 		order = append(order, t)
@@ -1157,6 +1188,9 @@ func (s *Script) String(getModel bool, modelTerms []*Term) string {
 			continue
 		}
 		f := c.ufs[n]
+		if c.recs[n] != nil {
+			continue
+		}
 		var as []string
 		for _, a := range f.Args {
 			as = append(as, a.String())
@@ -1213,6 +1247,28 @@ func (s *Script) String(getModel bool, modelTerms []*Term) string {
 			}
 		}
 		return "(" + t.Op + " " + as + ")"
+	}
+	// recursive specification functions (bodies printed in full: nothing is hoisted yet)
+	{
+		var recNames []string
+		for _, n := range c.ufOrd {
+			if usedUF[n] && c.recs[n] != nil {
+				recNames = append(recNames, n)
+			}
+		}
+		if len(recNames) > 0 {
+			var decls, bodies []string
+			for _, n := range recNames {
+				rd := c.recs[n]
+				var ps []string
+				for _, b := range rd.Params {
+					ps = append(ps, fmt.Sprintf("(%s %s)", b.Name, b.Sort))
+				}
+				decls = append(decls, fmt.Sprintf("(%s (%s) %s)", n, strings.Join(ps, " "), c.ufs[n].Res))
+				bodies = append(bodies, pr(rd.Body))
+			}
+			fmt.Fprintf(&sb, "(define-funs-rec (%s) (%s))\n", strings.Join(decls, " "), strings.Join(bodies, " "))
+		}
 	}
 	// hoist shared, closed, non-leaf subterms into define-funs (topological = visit post-order)
 	n := 0
